@@ -52,3 +52,16 @@ chk("C15",
     "count 10 is even (odd round counts with odd n are outside the theorem and are not used by the repository).",
     "Lean 4 proof (Feistel inversion by induction over rounds, any round function) + recorded-oracle differential correspondence",
     "6/C15")
+chk("C19",
+    "Unbounded refinement theorems (Props/C19.lean): the file-level model of SPFLBArray (chunk files as byte strings, seek past EOF "
+    "zero-fills, short reads padded, lazy creation of touched chunk files, index normalisation, the slice-assignment loop with its rollback) "
+    "refines a plain list of fixed-size items: for EVERY operation and state the answer equals the list's and the abstraction commutes "
+    "(step_refines), hence for every history with close/reopen anywhere (run_refines); a failing operation - including a slice assignment "
+    "failing in the middle - leaves every item unchanged (failed_op_unchanged, via the rollback-restores lemma over distinct slice indices); "
+    "closed handles raise; only chunk ids below ceil(len/items_per_file) ever exist (files_created). All for every array length, item size "
+    "and chunk size. Tied to persistent_array.py by a differential run of random histories comparing every answer, the directory listing "
+    "after every step and the raw bytes of every chunk file at every close, plus the direct oracle against a Python list.",
+    "Trusted: Lean kernel + 3 standard axioms; POSIX/CPython file semantics as modelled (seek+write zero fill, short reads, rb+/wb+ creation); "
+    "Python slice.indices/range as modelled in PySeq (bounds and distinctness are proved); pickle round trip of the meta tuple; one live handle per path.",
+    "Lean 4 proof (refinement to a list; loop invariants; induction over histories) + file-level differential correspondence",
+    "6/C19")
